@@ -62,6 +62,68 @@ def mechanism_of(r, case, got, want):
     return 'parse-outcome'
 
 
+DERIVED = [
+    ('grammar c08b\nstart = Item+\nItem = Word | Num\nWord = /[a-z]+/\nNum = /[0-9]/\nclass K { w: Word; n: Num }\n',
+     'grammar c08c extends c08b\noverride Word = /[A-Z]+/\nBang = "!"\nclass Q { k: K; b: Bang }\nPairs = (Item // ",")\n',
+     ['start', 'Item', 'Word', 'Num', 'K', 'Bang', 'Q', 'Pairs'], 'aA1!,'),
+    ('grammar c08d\nignore " "\nstart = T*\nT = "x" | N\nN = /[0-9]+/\n',
+     'grammar c08e extends c08d\noverride T = "y" | N | Par\nPar = "(" >> start << ")"\nclass E {}\n',
+     ['start', 'T', 'N', 'Par', 'E'], 'xy1( )'),
+]
+
+
+def derived_stream(R):
+    """grammars that extend another: every rule and class of the derived module (own, overridden, inherited) as entry
+    point, judged by the property's own three-outcome rule (the two fullparse values must tell the same story)"""
+    import itertools
+    import sys
+    sys.path.insert(0, core.REPO)
+    from sourcer import Grammar
+
+    def call(g, entry, t, pos, full):
+        f = g.parse if entry is None else getattr(g, entry).parse
+        try:
+            return ('return', repr(f(t, pos, full)))
+        except g.PartialParseError as e:
+            return ('partial', repr(e.partial_result), e.last_position.index)
+        except g.ParseError as e:
+            return ('error', e.position.index)
+        except Exception as e:                  # noqa
+            return ('exception', type(e).__name__)
+    for base, child, entries, alpha in DERIVED:
+        try:
+            Grammar(base)
+            g = Grammar(child)
+        except Exception as e:                  # noqa
+            R.counterexample('derived', 'derived-grammar-rejected', {'base': base, 'child': child}, 'a module', repr(e)[:200])
+            continue
+        texts = ['']
+        for n in range(1, 4):
+            texts += [''.join(p) for p in itertools.product(alpha, repeat=n)]
+        for entry in [None] + entries:
+            for t in texts:
+                for pos in range(0, len(t) + 1):
+                    nf, fu = call(g, entry, t, pos, False), call(g, entry, t, pos, True)
+                    case = {'base': base, 'child': child, 'entry': entry or 'parse', 'text': t, 'pos': pos}
+                    R.count('derived', (child, entry, t, pos), nontrivial=nf[0] == 'return')
+                    bad = None
+                    if nf[0] == 'exception' or fu[0] == 'exception':
+                        R.counterexample('derived', 'exception-escapes:' + (nf[1] if nf[0] == 'exception' else fu[1]), case,
+                                         'return / PartialParseError / ParseError', {'fullparse=False': nf, 'fullparse=True': fu})
+                        continue
+                    if nf[0] == 'return':
+                        ok = (fu == nf) or (fu[0] == 'partial' and fu[1] == nf[1] and pos <= fu[2] < len(t))
+                    elif nf[0] == 'error':
+                        ok = fu == nf and pos <= nf[1] <= len(t)
+                    else:
+                        ok = False
+                    if not ok:
+                        R.counterexample('derived', 'three-outcomes', case, 'the two fullparse values tell the same story',
+                                         {'fullparse=False': nf, 'fullparse=True': fu})
+                    else:
+                        R.traces += 1
+
+
 def run(R):
     R.build()
     R.prove('Props/C08.v')
@@ -80,6 +142,7 @@ def run(R):
                 k = ip.split(' ')[0]
                 kinds[k] = kinds.get(k, 0) + 1
     R.extra['parse_outcome_kinds'] = kinds
+    derived_stream(R)
     R.assumptions += ['inline Python of the generated grammars does not raise', 'regular expressions without anchors/lookbehind (oracle tables)']
     return R.finish(
         rule='grammars with classes (consuming, zero-width, empty), empty sequences and rules combined by '
